@@ -500,6 +500,13 @@ func (em *emitter) prepareCallParameters(fType reflect.Type, fArgs []ast.Express
 			}
 		} else {
 			slice := em.fb.newRegister(reflect.Slice)
+			if varArgsCount == 0 {
+				// The slice must be nil, not empty.
+				sliceType := fType.In(fNumIn - 1)
+				c := em.fb.makeGeneralValue(reflect.Zero(sliceType))
+				em.changeRegister(true, c, slice, sliceType, sliceType)
+				return fOutRegs, fOutTypes
+			}
 			em.fb.emitMakeSlice(true, true, fType.In(fNumIn-1), int8(varArgsCount), int8(varArgsCount), slice, nil) // TODO: fix pos.
 			for i := range varArgsCount {
 				tmp := em.fb.newRegister(t.Kind())
